@@ -154,6 +154,44 @@ def refs_in_bounds(mname, guard):
     return out
 
 
+def layout():
+    """the documented .mjb layout as (description, byte-count expression) in file order, written from the X-macro tables of
+    mjxmacro.h (sizes, pointers) and the fixed header - the specification mj_sizeModel / mj_saveModel are checked against."""
+    seq = [('header', '20')]
+    seq += [('size:' + nm, '8') for nm in modeltab.model_sizes()]
+    seq += [('opt', 'sizeof("mjOption")'), ('vis', 'sizeof("mjVisual")'), ('stat', 'sizeof("mjStatistic")')]
+    seq += [(f, '1') for f in modeltab.model_flags()]        # every derived flag of the struct, from mjmodel.h
+    for name, (typ, nr, nc) in modeltab.model_pointers().items():
+        seq.append(('array:' + name, '%d * (%s)' % (SIZEOF[typ], modeltab.length_expr(nr, nc))))
+    return seq
+
+
+def prefix(k):
+    """bytes before item k of the layout."""
+    return 'Sum([lit(0), ' + ', '.join(e for _, e in layout()[:k]) + '])'
+
+
+def total():
+    return prefix(len(layout()))
+
+
+def product_lemmas():
+    """arrays whose column count is itself a model size: their element count is a product of two non-negative sizes."""
+    out = {}
+    macros = modeltab.int_macros()
+    for name, (typ, nr, nc) in modeltab.model_pointers().items():
+        if not str(macros.get(nc, nc)).isdigit() and 'MJ_M' in nc:
+            out['nonneg_length/' + name] = '%s >= 0' % modeltab.length_expr(nr, nc)
+    return out
+
+
+def nonneg_sizes():
+    return ' and '.join('m.%s >= 0 and m.%s < 2**31 - 1' % (x, x) for x in modeltab.make_model_params() if x not in ('ntexdata', 'ntextdata')) \
+        + ' and m.ntexdata >= 0 and m.ntextdata >= 0 and m.nnames_map >= 0 and m.nnames_map < 2**31 - 1'
+
+
+N_PROLOGUE_READS = 2 + 3 + len(modeltab.model_flags())      # header, sizes block, opt, vis, stat, flags
+
 NAMED_TYPES = ['nbody', 'njnt', 'ngeom', 'nsite', 'ncam', 'nlight', 'nflex', 'nmesh', 'nskin', 'nhfield', 'ntex', 'nmat', 'npair',
                'nexclude', 'neq', 'ntendon', 'nactuator', 'nsensor', 'nnumeric', 'ntext', 'ntuple', 'nkey', 'nplugin']
 
@@ -196,7 +234,7 @@ def make_model_hook(exe, st, node, args):
         st.store(Ptr(M, (0,), (nm,), mt.field(nm)), v)
     nb = z3.Int('nbuffer@' + tag)
     st.store(Ptr(M, (0,), ('nbuffer',), mt.field('nbuffer')), nb)
-    facts = [nb >= 0, nb < 2**63, nmap == 2 * sum(val[t] for t in NAMED_TYPES), nmap < 2**31 - 1, val['nbody'] >= 1]
+    facts = [val['nmocap'] <= val['nbody'], nb >= 0, nb < 2**63, nmap == 2 * sum(val[t] for t in NAMED_TYPES), nmap < 2**31 - 1, val['nbody'] >= 1]
     for nm, v in val.items():
         facts.append(v >= 0)
         if nm not in ('ntexdata', 'ntextdata'):
@@ -232,14 +270,16 @@ def contracts():
     v['ensures'] = validate_ensures()
     C['mj_validateReferences'] = v
     C['mj_loadModelBuffer'] = {
-        'params': {'buffer': {'ct': 'unsigned char', 'len': 'buffer_sz'}},
+        'params': {'buffer': {'ct': 'unsigned char', 'len': 'buffer_sz', 'blob_buffer': True}},
         'requires': {'buffer_has_buffer_sz_bytes': 'buffer != NULL and buffer_sz >= 0'},
         'no_error': True,          # no corrupt or truncated buffer reaches bufread's internal mjERROR
+        'strict_unsigned': True,
+        'opaque_products': True,
         # cut point after every read: the read position stays inside the buffer (its exact value is forgotten)
         # (not inside the fixed-size prologue - header, sizes, three structs, two flags - whose single length check covers
         #  five consecutive reads and needs the exact position)
-        'cut_after_call': {'bufread': {'invariant_at': lambda k: None if k < 6 else {'position_in_buffer': '0 <= ptrbuf and ptrbuf <= buffer_sz'},
-                                       'havoc': ['ptrbuf']}},
+        'cut_after_call': {'bufread': {'invariant_at': lambda k: None if k < N_PROLOGUE_READS - 1 else {'position_in_buffer': '0 <= ptrbuf and ptrbuf <= buffer_sz'},
+                                       'havoc': ['ptrbuf'], 'sequential': 'ptrbuf'}},
         'ensures': refs_in_bounds('result', 'result != NULL'),
         'quiet_trivial': True,
     }
@@ -247,6 +287,32 @@ def contracts():
     call_v.pop('auto_search'); call_v.pop('loops', None)
     call_v['requires'] = dict(v['requires'])
     C['__load__'] = {'mj_validateReferences': call_v}
+    C['mj_sizeModel'] = {
+        'params': {'m': {'n': 1}},
+        'requires': {'sizes': nonneg_sizes(), 'model_fits_in_memory': '%s <= 2**62' % total(),
+                     'mocap_bodies_are_bodies': 'm.nmocap <= m.nbody', 'arrays_fit_int': arrays_fit_int()},
+        'assigns': [],
+        'lemmas': product_lemmas(),
+        'ensures': {'equals_documented_layout': 'result == %s' % total()},
+        'strict_unsigned': True,
+        'opaque_products': True,       # unsigned wrap-around and value-changing conversions are obligations here
+        'no_error': True,
+    }
+    n_items = len(layout())
+    C['mj_saveModel'] = {
+        'params': {'m': model_spec(), 'buffer': {'ct': 'unsigned char', 'len': 'buffer_sz', 'blob_buffer': True}, 'filename': {'null': True}},
+        'requires': {'sizes': nonneg_sizes(), 'buffer_holds_the_model': 'buffer != NULL and buffer_sz >= %s' % total(),
+                     'mocap_bodies_are_bodies': 'm.nmocap <= m.nbody'},
+        'lemmas': product_lemmas(),
+        'no_error': True,          # never trips bufwrite's bound check
+        'strict_unsigned': True,
+        'opaque_products': True,
+        # cut point after every write: the write position is exactly the documented offset of the next item, so the last
+        # cut states "bytes written == the documented total" (== mj_sizeModel by its own contract)
+        'cut_after_call': {'bufwrite': {'invariant_at': lambda k: {'position_is_documented_offset': 'ptrbuf == %s' % prefix(k + 1)} if k < n_items
+                                        else {'no_more_items_than_documented': 'false'},
+                                        'havoc': ['ptrbuf'], 'sequential': 'ptrbuf'}},
+    }
     for f in ('bufread', 'bufwrite', 'getnsize', 'getnptr', 'SKIP'):
         C[f] = {'inline': True}
     C['__effect_free__'] = ('mj_version', 'mj_deleteModel', 'mju_free')
